@@ -15,6 +15,7 @@ ENV = {
     "OPENBLAS_NUM_THREADS": "1",
     "OMP_NUM_THREADS": "1",
     "MKL_NUM_THREADS": "1",
+    "PYOMA_LOG_LEVEL": "DEBUG",
 }
 if any(os.environ.get(k) != v for k, v in ENV.items()):
     os.environ.update(ENV)
@@ -29,7 +30,8 @@ import traceback
 import warnings
 
 warnings.filterwarnings("ignore")
-logging.disable(logging.CRITICAL)
+
+
 
 import common
 
@@ -50,6 +52,7 @@ def main():
         import pyoma2  # noqa: F401
 
         assert pyoma2.__file__.startswith(SRC), pyoma2.__file__
+        common.quiet_debug_logging()
         if not a.no_proof:
             ctx.proof_step()
         cov = None
